@@ -172,9 +172,18 @@ func (e *CompileError) Error() string {
 } // }}}
 
 type codeStore struct { // {{{
-	codes []uint32
-	lines []int
-	pc    int
+	codes   []uint32
+	lines   []int
+	pc      int
+	context *funcContext
+}
+
+// checkOperand refuses a value that does not fit its instruction field: the
+// encoders mask silently, which would turn it into a different operand.
+func (cd *codeStore) checkOperand(v int, max int) {
+	if v < 0 || v > max {
+		raiseCompileError(cd.context, cd.context.Proto.LineDefined, "function or expression too complex (instruction operand out of range)")
+	}
 }
 
 func (cd *codeStore) Add(inst uint32, line int) {
@@ -189,14 +198,21 @@ func (cd *codeStore) Add(inst uint32, line int) {
 }
 
 func (cd *codeStore) AddABC(op int, a int, b int, c int, line int) {
+	cd.checkOperand(a, opMaxArgsA)
+	cd.checkOperand(b, opMaxArgsB)
+	cd.checkOperand(c, opMaxArgsC)
 	cd.Add(opCreateABC(op, a, b, c), line)
 }
 
 func (cd *codeStore) AddABx(op int, a int, bx int, line int) {
+	cd.checkOperand(a, opMaxArgsA)
+	cd.checkOperand(bx, opMaxArgBx)
 	cd.Add(opCreateABx(op, a, bx), line)
 }
 
 func (cd *codeStore) AddASbx(op int, a int, sbx int, line int) {
+	cd.checkOperand(a, opMaxArgsA)
+	cd.checkOperand(sbx+opMaxArgSbx, opMaxArgBx)
 	cd.Add(opCreateASbx(op, a, sbx), line)
 }
 
@@ -250,22 +266,27 @@ func (cd *codeStore) SetOpCode(pc int, v int) {
 }
 
 func (cd *codeStore) SetA(pc int, v int) {
+	cd.checkOperand(v, opMaxArgsA)
 	opSetArgA(&cd.codes[pc], v)
 }
 
 func (cd *codeStore) SetB(pc int, v int) {
+	cd.checkOperand(v, opMaxArgsB)
 	opSetArgB(&cd.codes[pc], v)
 }
 
 func (cd *codeStore) SetC(pc int, v int) {
+	cd.checkOperand(v, opMaxArgsC)
 	opSetArgC(&cd.codes[pc], v)
 }
 
 func (cd *codeStore) SetBx(pc int, v int) {
+	cd.checkOperand(v, opMaxArgBx)
 	opSetArgBx(&cd.codes[pc], v)
 }
 
 func (cd *codeStore) SetSbx(pc int, v int) {
+	cd.checkOperand(v+opMaxArgSbx, opMaxArgBx)
 	opSetArgSbx(&cd.codes[pc], v)
 }
 
@@ -438,7 +459,7 @@ func (fc *funcContext) leaveLevel() { *fc.levels-- }
 func newFuncContext(sourcename string, parent *funcContext) *funcContext {
 	fc := &funcContext{
 		Proto:           newFunctionProto(sourcename),
-		Code:            &codeStore{make([]uint32, 0, 1024), make([]int, 0, 1024), 0},
+		Code:            &codeStore{make([]uint32, 0, 1024), make([]int, 0, 1024), 0, nil},
 		Parent:          parent,
 		Upvalues:        newVarNamePool(0),
 		Block:           newCodeBlock(newVarNamePool(0), labelNoJump, nil, nil, 0),
@@ -449,6 +470,7 @@ func newFuncContext(sourcename string, parent *funcContext) *funcContext {
 		unresolvedGotos: map[int]*gotoLabelDesc{},
 	}
 	fc.Blocks = []*codeBlock{fc.Block}
+	fc.Code.context = fc
 	if parent != nil {
 		fc.levels = parent.levels
 	} else {
